@@ -5,7 +5,7 @@
    guard, the attributes assigned / cleared, dictionary keys and stored entries (g_*_key, g_*_entry, g_*_add), index
    formulas (he_idx_*, g_*_idx), argument orders of nested calls (g_*_call(s)), return expressions and branch tests
    (g_*_ret, g_*_test), the half-edge record layout and the slots read, the walk steps, the border predicate, what the
-   border properties return (gret_*).
+   border properties return (the gret_ constants).
    NO proofs in this file. *)
 From Coq Require Import ZArith List Bool.
 Import ListNotations.
